@@ -3,7 +3,7 @@
 //! `run_clock_cycles` batches (multiples of 4 clocks), observing LY, STAT and the returned
 //! interrupt flags after every batch.
 //!
-//! c14.step | c14.run | c14.io :
+//! c14.edge | c14.step | c14.run | c14.io :
 //!   c14.<sub> stat=<n> lyc=<n> b=<list> | w=<4 hex: flags of the STAT write, of the LYC write> o=<6 hex per batch: LY STAT flags>
 //! c14.part (the same elapsed time under two partitions):
 //!   c14.part stat=<n> lyc=<n> a=<list> b=<list> | oa=<6 hex: final LY, final STAT, OR of all flags> ob=<6 hex>
@@ -188,6 +188,25 @@ pub fn run(sub: &str, opts: &Opts, w: &mut dyn Write) {
   }
   let (si, sn) = opts.shard();
   match sub {
+    // short cases: jump to 8 clocks before each schedule boundary of interest, then four single ticks
+    "edge" => {
+      let lycs: Vec<u8> = if opts.thorough { (0..=255u8).collect() } else { LYCS.to_vec() };
+      let l0 = 4560usize; // first clock of line 0
+      let bounds = [456, 4104, l0, l0 + 80, l0 + 268, l0 + 456, l0 + 456 + 80, l0 + 2 * 456, l0 + 142 * 456 + 268,
+        l0 + 143 * 456, l0 + 143 * 456 + 80, l0 + 143 * 456 + 268, FRAME, FRAME + 456, FRAME + l0, 2 * FRAME, 2 * FRAME + l0];
+      let mut items: Vec<Item> = Vec::new();
+      let mut t = 0usize;
+      for b in bounds {
+        items.push((b - 8 - t, 1));
+        items.push((4, 4));
+        t = b + 8;
+      }
+      let mut i = 0usize;
+      for lyc in lycs { for mask in 0..16u8 {
+        if i % sn == si { emit("edge", mask << 3, lyc, &items, w); }
+        i += 1;
+      }}
+    },
     // every single 4-clock tick of more than one frame (quick) / three frames (thorough),
     // all 16 enable masks x the LYC boundary set (quick) / all 256 LYC values (thorough)
     "step" => {
